@@ -246,6 +246,9 @@ Section Cas.
 
     (* ------------------------------------------------------------ the system *)
     Variable R : Type.
+    (* what every client guarantees about the result it returns (monotone in the history) *)
+    Variable Qc : hist -> R -> Prop.
+    Hypothesis Qc_mono : Qmono Qc.
 
     Record sys := { sy_store : store; sy_clients : list (cstate R) }.
 
@@ -269,7 +272,7 @@ Section Cas.
     Definition sys_run (y : sys) (evs : list event) : sys := fold_left sys_step evs y.
 
     Definition client_safe (H : hist) (c : cstate R) : Prop :=
-      match c with CRun p => safeQ H p (fun _ _ => True) | CCrashed => True end.
+      match c with CRun p => safeQ H p Qc | CCrashed => True end.
 
     Definition sys_ok (y : sys) (H : hist) : Prop :=
       store_hist (sy_store y) H /\ hist_ok H /\ Forall (client_safe H) (sy_clients y).
@@ -394,7 +397,7 @@ Section Cas.
 
     Lemma client_safe_mono H H' c : hext H H' -> client_safe H c -> client_safe H' c.
     Proof.
-      destruct c; simpl; auto. intros. eapply safeQ_mono; eauto. red; auto.
+      destruct c; simpl; auto. intros. eapply safeQ_mono; eauto.
     Qed.
 
     Lemma sys_step_ok y H ev : sys_ok y H ->
@@ -404,7 +407,7 @@ Section Cas.
       assert (STAY : effect (sy_store y) (sy_store y) /\ exists H', hext H H' /\ sys_ok y H').
       { split; [apply eff_none; auto|]. exists H; split; [apply hext_refl | split; [|split]; auto]. }
       destruct (nth_error (sy_clients y) (ev_client ev)) as [[p|]|] eqn:E; auto.
-      assert (Sp : safeQ H p (fun _ _ => True)).
+      assert (Sp : safeQ H p Qc).
       { apply nth_error_In in E. rewrite Forall_forall in F. apply (F _ E). }
       destruct p as [r | rq k]; simpl.
       - split; [apply eff_none; auto|].
@@ -453,6 +456,16 @@ Section Cas.
     Proof.
       intros OK Hin. destruct (safe_system_invariant evs OK) as (H' & _ & (SH & HO & _)).
       destruct SH as [SE _]. destruct (SE _ Hin) as [EI _]. eapply HO; eauto.
+    Qed.
+
+    (* a client that has finished returns a result satisfying Qc w.r.t. the writes that really happened *)
+    Corollary safe_system_results y H evs i r :
+      sys_ok y H -> nth_error (sy_clients (sys_run y evs)) i = Some (CRun (Ret r)) ->
+      exists H', hext H H' /\ store_hist (sy_store (sys_run y evs)) H' /\ hist_ok H' /\ Qc H' r.
+    Proof.
+      intros OK NE. destruct (safe_system_invariant evs OK) as (H' & E & (SH & HO & F)).
+      exists H'. split; auto. split; auto. split; auto.
+      apply nth_error_In in NE. rewrite Forall_forall in F. apply (F _ NE).
     Qed.
 
     (* every step of a safe system changes the store by at most one allowed transformation *)
